@@ -61,6 +61,11 @@ func (r *DecoratorResolver) ResolveIdent(file *ast.File, parent ast.Node, parent
 }
 
 func (r *DecoratorResolver) imports(file *ast.File) (map[string]string, error) {
+	if file == nil {
+		// e.g. when a *ast.Package or an isolated node is decorated
+		return nil, fmt.Errorf("goast.DecoratorResolver can't resolve identifiers without the file that contains them")
+	}
+
 	r.filesM.Lock()
 	defer r.filesM.Unlock()
 
